@@ -24,6 +24,11 @@ def gen_sessions(ctx, n, long_n, seed, judge, only=None):
         recs = [r for r in recs if only(r)]
     for r in recs:
         r["judge"] = judge
+    li = [r for r in recs if r["lvl"] == "listen" and not r["panic"]]
+    loose = [r for r in li if not r["exact"]]
+    ctx.cov["listen_sessions_clock_origin"] = {"pinned": len(li) - len(loose), "not_pinned": len(loose)}
+    if len(loose) > max(5, len(li) // 5):
+        raise Machinery("the driver's clock origin could not be pinned in %d of %d listener sessions (machine too loaded): time stamps would go unjudged" % (len(loose), len(li)))
     return recs
 
 
